@@ -56,6 +56,12 @@ pub fn run(args: &[String]) {
         let maxnewton = if rng.chance(0.25) { 2 + rng.below(5) } else { 7 };
         let predictive = rng.chance(0.8);
         let ntol = if rng.chance(0.1) { Some(10f64.powf(-rng.range(1.0, 4.0))) } else { None };
+        // every 20th case: a tiny time scale with max_step below the built-in first step of 1e-6
+        let (kind, span, xend, first, maxstep, minstep) = if id % 20 == 7 {
+            let sp = if rng.chance(0.5) { 1.03e-5 } else { 4.1e-6 };
+            (Kind::Slow, sp, if back { x0 - sp } else { x0 + sp }, if rng.chance(0.3) { Some(3e-7) } else { None }, Some(if rng.chance(0.5) { 2e-7 } else { 5e-7 }), None)
+        } else { (kind, span, xend, first, maxstep, minstep) };
+        let (p, y0) = if id % 20 == 7 { let p = Prob::new(Kind::Slow); let y0 = p.y0(); (p, y0) } else { (p, y0) };
         let smin = if rng.chance(0.2) { 0.5 } else { 0.2 };
         let smax = if rng.chance(0.2) { 4.0 } else { 8.0 };
         let mut rec = Recorder::new();
